@@ -33,7 +33,7 @@ fn main() {
     let out = kv.get("out").cloned().unwrap_or_else(|| "trace.ndjson".to_string());
     world::silence_panics();
     match suite.as_str() {
-        "pool" => suites::pool::main(seed, first, runs, ops, &out),
+        "pool" => suites::pool::main(seed, first, runs, ops, &out, kv.get("kind").map(|s| s.as_str()).unwrap_or("cp")),
         "vault" => suites::vault::main(seed, first, runs, ops, &out),
         "lair" => suites::lair::main(seed, first, runs, ops, &out, kv.get("sched"), kv.get("table").and_then(|t| t.parse().ok())),
         "epochs" => suites::epochs::main(seed, first, runs, ops, &out, kv.get("kind").map(|s| s.as_str()).unwrap_or("manager"), kv.get("sched"), kv.get("table").and_then(|t| t.parse().ok())),
